@@ -535,7 +535,56 @@ def w2_comparisons_and_positions(ctx: Ctx):
               'a nested pattern extends the position of its parent', 'changed')
 
 
+def r3_loop_condition(ctx: Ctx):
+    """The reader turns expressions into statements: a `let` or an `if` inside an expression becomes assignments emitted
+    into the statement list of the context it is visited with.  The test of a `while` is evaluated before every trip, so
+    it may not be visited with the list of the enclosing block (its statements would run once, ahead of the loop).  Both
+    loop readers take the test from `_loop_condition`, which visits the condition with lists of its own, emits them
+    ahead of the loop *and* hands back a second copy that the loop body ends with, the test held in a variable."""
+    for q in ('_visit_while', '_visit_whilestar'):
+        fn = ctx.fn(FRONT, f'_FPCore2FPy.{q}')
+        direct = [k for k in calls_in(fn) if call_name(k) == 'self._visit' and k.args and norm(k.args[0]) == 'e.cond']
+        ctx.check(not direct, FRONT, direct[0] if direct else fn, f'_FPCore2FPy.{q}', 'the loop test is not visited with the enclosing statement list',
+                  'the statements a condition needs are emitted once, ahead of the loop: `while (let ([m (fmin x y)]) (< m 10))` tests a stale m forever')
+        ks = [k for k in calls_in(fn) if call_name(k) == 'self._loop_condition']
+        body = None
+        if len(ks) == 1 and len(ks[0].args) == 4:
+            body = norm(ks[0].args[3])
+        tgt = [s for s in walk_no_nested(fn) if isinstance(s, ast.Assign) and s.value in ks]
+        names = [norm(e) for s in tgt for e in (s.targets[0].elts if isinstance(s.targets[0], ast.Tuple) else [])]
+        ok = body is not None and len(names) == 2 and norm(ks[0].args[0]) == 'e.cond'
+        if ok:
+            test, again = names
+            stmts = [s for s in fn.body]
+            i_ext = [i for i, s in enumerate(stmts) if norm(s) == f'{body}.extend({again})']
+            i_loop = [i for i, s in enumerate(stmts) if isinstance(s, ast.Assign) and call_name(s.value) == 'WhileStmt' and norm(s.value.args[0]) == test
+                      and norm(s.value.args[1]) == f'StmtBlock({body})']
+            i_upd = [i for i, s in enumerate(stmts) if isinstance(s, ast.For)]
+            ok = len(i_ext) == 1 and len(i_loop) == 1 and i_ext[0] < i_loop[0] and all(i < i_ext[0] for i in i_upd)
+        ctx.check(ok, FRONT, fn, f'_FPCore2FPy.{q}', 'the loop tests what _loop_condition returns and its body ends with the re-evaluation', 'changed')
+    lc = ctx.fn(FRONT, '_FPCore2FPy._loop_condition')
+    visits = [k for k in calls_in(lc) if call_name(k) == 'self._visit' and k.args and norm(k.args[0]) == 'cond']
+    own_lists = {t.id for s in walk_no_nested(lc) if isinstance(s, (ast.Assign, ast.AnnAssign)) and isinstance(getattr(s, 'value', None), ast.List) and not s.value.elts
+                 for t in ([s.target] if isinstance(s, ast.AnnAssign) else s.targets) if isinstance(t, ast.Name)}
+    ok = len(visits) == 2
+    used = []
+    for k in visits:
+        c = k.args[1] if len(k.args) > 1 else None
+        st = kwarg(c, 'stmts') if isinstance(c, ast.Call) else None
+        ok = ok and isinstance(st, ast.Name) and st.id in own_lists
+        used.append(st.id if isinstance(st, ast.Name) else None)
+    ctx.check(ok and len(set(used)) == 2, FRONT, lc, '_FPCore2FPy._loop_condition', 'the condition is visited twice, each time with a statement list of its own', f'visited with {used}')
+    t = norm(lc, 6000)
+    if ok and len(set(used)) == 2:
+        pre, again = used
+        rets = [norm(r.value) for r in walk_no_nested(lc) if isinstance(r, ast.Return)]
+        ok2 = f'ctx.stmts.extend({pre})' in t and 'ctx.stmts.append(Assign(flag, None, cond_e, None))' in t and f'{again}.append(Assign(flag, None, cond_again, None))' in t \
+            and f'(Var(flag, None), {again})' in rets and f'if not {pre}: return (cond_e, [])' in t.replace('\n', ' ')
+        ctx.check(ok2, FRONT, lc, '_FPCore2FPy._loop_condition', 'first copy ahead of the loop, second copy returned for the end of the body, both assign the tested variable', f'returns {rets}')
+
+
 RULES = [
+    Rule('C12.R3', 'reader: the statements a `while` condition needs run before every test, not once ahead of the loop', r3_loop_condition, 6, 'F,P'),
     Rule('C12.W2', 'writer: comparison chains keep their meaning (no n-ary !=); tuple positions are indexed outermost first; reader: n-ary != is not a chain', w2_comparisons_and_positions, 4, 'T,F'),
     Rule('C12.W1', 'writer: list reductions fold from element 0 in index order, accumulator on the left (the interpreter\'s order)', w1_list_reductions, 9, 'F'),
     Rule('C12.R2', 'reader: in a parallel binding form every bound value is read under the entry scope; only starred forms thread the bindings', r2_parallel_bindings, 6, 'F'),
@@ -549,6 +598,12 @@ RULES = [
 from ..selftest import Mutant  # noqa: E402
 
 MUTANTS = [
+    Mutant('while-condition-statements-hoisted', FRONT, "        # compile condition\n        stmts: list[Stmt] = []\n        cond_e, recheck = self._loop_condition(e.cond, env, ctx, stmts)\n\n        # create loop body\n        loop_env = dict(env)",
+           "        stmts: list[Stmt] = []\n        recheck: list[Stmt] = []\n        cond_e = self._visit(e.cond, _Ctx(env=env, props=ctx.props, stmts=ctx.stmts))\n\n        # create loop body\n        loop_env = dict(env)", 'C12.R3',
+           'finding F51 before its repair'),
+    Mutant('loop-recheck-dropped', FRONT, "            stmts.append(stmt)\n        stmts.extend(recheck)\n\n        # append while statement", "            stmts.append(stmt)\n\n        # append while statement", 'C12.R3', count=2, nth=0),
+    Mutant('loop-recheck-not-assigned', FRONT, "        again.append(Assign(flag, None, cond_again, None))\n", "", 'C12.R3'),
+    Mutant('loop-condition-second-visit-shares-the-list', FRONT, "        cond_again = self._visit(cond, _Ctx(env=env, props=ctx.props, stmts=again))", "        cond_again = self._visit(cond, _Ctx(env=env, props=ctx.props, stmts=pre))", 'C12.R3'),
     Mutant('chain-of-ne-goes-n-ary', BACK, "                    if op == prev_op and op is not CompareOp.NE:", "                    if op == prev_op:", 'C12.W2',
            'finding F50 before its repair: x != y != z is True for (1, 2, 1) and the core says False'),
     Mutant('chain-loses-a-link', BACK, "                        groups.append((op, [prev_args[-1], rhs]))", "                        groups.append((op, [prev_args[0], rhs]))", 'C12.W2'),
